@@ -81,6 +81,7 @@ type FuncContract struct {
 	Havoc     []string // heap keys havocked by a stub
 	Returns   []string // result names for stubs (r0.. default)
 	Trusted   bool     // contract is assumed, body not verified (stubs)
+	TrustedReason string
 	Fresh     []int    // result indices that are freshly allocated
 }
 
@@ -106,6 +107,8 @@ type GhostMapDecl struct {
 	Key  string // "ref", "int"
 	Val  string // "int", "bool", "ref"
 	Zero bool   // per-call delta ghost: zero at entry of every function
+	FreshZero bool // the row of a freshly allocated object is zero
+	Stable    bool // not havocked at loop heads; must be unchanged at back edges
 }
 
 type GhostFieldDecl struct {
@@ -130,7 +133,7 @@ var clauseKeywords = map[string]bool{
 	"props": true, "requires": true, "ensures": true, "modifies": true, "loop": true, "at": true,
 	"panics_if": true, "safety": true, "inline": true, "noinline": true, "assume": true,
 	"lockeffect": true, "rlockeffect": true, "ghostset": true, "pure": true, "havoc": true, "fresh": true,
-	"nobalance": true, "trustcall": true,
+	"nobalance": true, "trustcall": true, "trusted": true,
 }
 var declKeywords = map[string]bool{"func": true, "stub": true, "pred": true, "ghost": true}
 
@@ -139,8 +142,8 @@ var labelRe = regexp.MustCompile(`^([A-Za-z0-9_\-]+):([^:]|$)`)
 func LoadContracts(p *Program) (*ContractSet, error) {
 	cs := &ContractSet{Funcs: map[string]*FuncContract{}, Preds: map[string]*PredDecl{}, GhostMaps: map[string]*GhostMapDecl{},
 		GhostFields: map[string]*GhostFieldDecl{}, CounterFields: map[string]bool{}}
-	cs.GhostMaps["held"] = &GhostMapDecl{Name: "held", Key: "ref", Val: "int", Zero: true}
-	cs.GhostMaps["rheld"] = &GhostMapDecl{Name: "rheld", Key: "ref", Val: "int", Zero: true}
+	cs.GhostMaps["held"] = &GhostMapDecl{Name: "held", Key: "ref", Val: "int", Zero: true, Stable: true}
+	cs.GhostMaps["rheld"] = &GhostMapDecl{Name: "rheld", Key: "ref", Val: "int", Zero: true, Stable: true}
 	for _, src := range p.contractSources() {
 		cs.Files = append(cs.Files, src.File)
 		if !src.CommentOnly {
@@ -246,8 +249,23 @@ func (cs *ContractSet) parseDecl(src contractSource, d *rawDecl) error {
 				return fmt.Errorf("%s: malformed ghost map: %s", d.head.Pos, rest)
 			}
 			g := &GhostMapDecl{Name: m[1], Key: m[2], Val: f[2]}
-			if len(f) > 3 && f[3] == "zero" {
-				g.Zero = true
+			for _, flag := range f[3:] {
+				switch flag {
+				case "zero":
+					g.Zero = true
+				case "freshzero":
+					g.FreshZero = true
+				case "stable":
+					g.Stable = true
+				case "--":
+				default:
+					if strings.HasPrefix(flag, "--") {
+						break
+					}
+				}
+				if strings.HasPrefix(flag, "--") {
+					break
+				}
 			}
 			cs.GhostMaps[g.Name] = g
 			return nil
@@ -441,6 +459,10 @@ func (cs *ContractSet) parseClause(fc *FuncContract, c rawClause) error {
 		fc.NoInline = true
 	case "nobalance":
 		fc.NoBalance = true
+	case "trusted":
+		// the body is not verified against this contract; it is an assumption
+		fc.Trusted = true
+		_, fc.TrustedReason = splitReason("x " + c.text)
 	case "trustcall":
 		text, reason := splitReason(c.text)
 		for _, f := range strings.Fields(text) {
